@@ -55,7 +55,7 @@ template<class T, class K> struct Driver {
   }
 
   // the observable state: counters, iterator, to_string level sizes
-  void post(Ev& e, const DS& s, bool restored) {
+  void post(Ev& e, const DS& s, bool restored, bool wide = false) {
     std::string ts(s.to_string(true, false).c_str());
     long nlev = field(ts, "Levels         ");
     std::vector<long> lsz;
@@ -75,7 +75,10 @@ template<class T, class K> struct Driver {
       std::vector<T> v(pr.first.begin(), pr.first.end());
       lev[(size_t)h].push_back(v.size() == s.get_dim() ? lookup(v) : 0);
     }
-    e.i("k", s.get_k()).i("dim", s.get_dim()).i("n", (long long)s.get_n()).i("retained", s.get_num_retained()).b("est", s.is_estimation_mode())
+    e.i("k", s.get_k()).i("dim", s.get_dim());
+    if (wide) e.raw("n", "[" + std::to_string(s.get_n() & 0xffffffULL) + "," + std::to_string(s.get_n() >> 24) + "]");   // two limbs: n may exceed 2^32
+    else e.i("n", (long long)s.get_n());
+    e.i("retained", s.get_num_retained()).b("est", s.is_estimation_mode())
      .b("empty", s.is_empty()).i("nlev", nlev).il("lsz", lsz).i("itn", itn).i("badw", badw);
     e.key("lev"); e.s += "[";
     for (size_t h = 0; h < lev.size(); h++) { if (h) e.s += ","; e.s += "["; for (size_t j = 0; j < lev[h].size(); j++) { if (j) e.s += ","; e.s += std::to_string(lev[h][j]); } e.s += "]"; }
@@ -156,6 +159,52 @@ template<class T, class K> struct Driver {
         ev_twin(2, 3); }
       for (int i : {0, 1, 2, 3}) { Ev e("Obs"); e.i("id", i); post(e, *sk[i], rst[i]); e.emit(); }
     }
+    // ---- refused arguments at the wrap-around neighbours of the dimension check: dim + 2^16, dim + 2^17 (2^32 more elements
+    // than the configured dimension are not representable here); a refused call must leave the sketch unchanged
+    {
+      const int big = (int)pts.size();   // the point of dimension dim + 65536
+      mk(0, dim, 3); for (int u = 0; u < 5; u++) ev_update(0, ids[g.below(ids.size())]);
+      mk(3, dim + 65536, 2); ev_update(3, big);
+      auto bad_update = [&](int i, std::vector<T> v) {
+        bool threw = false; try { sk[i]->update(v); } catch (const std::invalid_argument&) { threw = true; }
+        Ev e("UpdateBad"); e.i("id", i).i("given", (long long)v.size()).b("threw", threw); post(e, *sk[i], rst[i]); e.emit();
+      };
+      auto bad_merge = [&](int dst, int src) {
+        bool threw = false; try { sk[dst]->merge(*sk[src]); } catch (const std::invalid_argument&) { threw = true; }
+        Ev e("MergeBad"); e.i("dst", dst).i("src", src).b("threw", threw); post(e, *sk[dst], rst[dst]); e.emit();
+      };
+      bad_update(0, vec(pts[big - 1]));
+      bad_update(0, std::vector<T>(dim + 131072, (T)0));
+      bad_update(3, vec(pts[ids[0] - 1]));
+      bad_update(3, std::vector<T>(dim + 131072, (T)0));
+      bad_merge(0, 3); bad_merge(3, 0);
+      { Ev e("Obs"); e.i("id", 0); post(e, *sk[0], false); e.emit(); }
+      { Ev e("Obs"); e.i("id", 3); post(e, *sk[3], false); e.emit(); }
+    }
+    // ---- wide counters: n driven past 2^32 by merging a copy of the sketch into itself 30 times (merge adds n), images
+    // through both paths, the restored sketches keep counting
+    {
+      std::unique_ptr<DS> w[3];
+      auto wupd = [&](int i, int pid) { w[i]->update(vec(pts[pid - 1])); Ev e("WStep"); e.i("id", i).str("op", "update").i("p", pid); post(e, *w[i], i >= 1, true); e.emit(); };
+      auto wmrg = [&](int i, int src) { DS tmp(*w[src]); w[i]->merge(std::move(tmp)); Ev e("WStep"); e.i("id", i).str("op", "merge").i("src", src); post(e, *w[i], i >= 1, true); e.emit(); };
+      w[0].reset(new DS(8, dim, kernel));
+      { Ev e("WNew"); e.i("id", 0); post(e, *w[0], false, true); e.emit(); }
+      for (int u = 0; u < 8; u++) wupd(0, ids[g.below(ids.size())]);
+      for (int d = 0; d < 30; d++) { wmrg(0, 0); if (d % 7 == 3) wupd(0, ids[g.below(ids.size())]); }   // 8 * 2^30 > 2^32
+      for (int path = 0; path < 2; path++) {
+        auto bytes0 = w[0]->serialize();
+        std::ostringstream os; w[0]->serialize(os); std::string st = os.str();
+        { Ev e("WSer"); e.i("src", 0).i("blob", path).i("size", (long long)bytes0.size()).bytes("img", bytes0.data(), bytes0.size()).bytes("simg", st.data(), st.size());
+          post(e, *w[0], false, true); e.emit(); }
+        long long consumed; const int dst = 1 + path;
+        if (path == 0) { w[dst].reset(new DS(DS::deserialize(bytes0.data(), bytes0.size(), kernel))); consumed = (long long)bytes0.size(); }
+        else { std::istringstream is(st + std::string(16, '\x5a')); w[dst].reset(new DS(DS::deserialize(is, kernel))); consumed = (long long)is.tellg(); }
+        auto re = w[dst]->serialize();
+        { Ev e("WDeser"); e.i("blob", path).i("dst", dst).str("path", path ? "stream" : "bytes").i("consumed", consumed).bytes("reimg", re.data(), re.size());
+          post(e, *w[dst], true, true); e.emit(); }
+        wupd(dst, ids[g.below(ids.size())]); wmrg(dst, 0); wmrg(dst, dst);
+      }
+    }
   }
 
   void segment(long seg, long events, int far_pct, bool restore = false) {
@@ -168,6 +217,10 @@ template<class T, class K> struct Driver {
     for (long j = 0; j < P + 4; j++) {
       std::vector<long> c; for (uint32_t d = 0; d < (j < P ? dim : alt); d++) c.push_back(far ? g.range(0, W) * 50 : g.range(0, W));
       if (idof.count(c)) continue;
+      pts.push_back(c); idof[c] = (int)pts.size();
+    }
+    if (restore) {   // one point whose dimension differs from the configured one by exactly 2^16 (wrap-around neighbour of the check)
+      std::vector<long> c(dim + 65536, 0); c[0] = 1; c[dim + 65535] = 2;
       pts.push_back(c); idof[c] = (int)pts.size();
     }
     scale = gauss ? 0.25 : 1.0;
